@@ -48,6 +48,10 @@ type Conn struct {
 	// OnIdleRead is called (without the lock) when a Read finds no input; it
 	// may Feed more.  Returning false means "nothing more to say right now".
 	OnIdleRead func() bool
+	// WithData, when set, is called (with the lock held; it must not call back)
+	// when read operation number n is about to deliver k > 0 bytes; a non-nil
+	// result is returned together with the data (io.Reader allows both at once).
+	WithData func(n, k int) error
 }
 
 // NewConn returns an open connection with no input.
@@ -217,6 +221,9 @@ func (c *Conn) Read(p []byte) (int, error) {
 			k := copy(p, c.in)
 			c.in = c.in[k:]
 			c.cond.Broadcast()
+			if wd := c.WithData; wd != nil {
+				return k, wd(n, k)
+			}
 			return k, nil
 		}
 		if c.inErr != nil {
